@@ -107,6 +107,7 @@ async fn replay(ip: &Inproc, dir: &std::path::Path, events: &[String]) -> Value 
     let src = brush_core::SourceInfo::default();
     let mut violations: Vec<Value> = vec![];
     let mut launched: Vec<u32> = vec![]; // gate ids in launch order
+    let mut launched_kinds: Vec<String> = vec![]; // the kind of every launched job (jobs of different kinds have different futures)
     let mut jobno: HashMap<u32, usize> = HashMap::new(); // gate id -> job number given at launch
     let mut released: BTreeSet<u32> = BTreeSet::new();
     let mut fg = 0;
@@ -121,10 +122,13 @@ async fn replay(ip: &Inproc, dir: &std::path::Path, events: &[String]) -> Value 
                 "s" => format!("vgate {k} &"),
                 "c" => format!("{{ vgate {k}; vmark c{k}; }} &"),
                 "p" => format!("vgate {k} | vcat >/dev/null &"),
+                // a job that ends in an interpreter error (not a status) after its gate
+                "e" => format!("{{ vgate {k}; echo $((1/0)); }} 2>/dev/null &"),
                 _ => format!("lf() {{ for i in 1; do vgate {k} & done; }}; lf"),
             };
             let _ = sh.run_string(cmd, &src, &params).await;
             launched.push(k);
+            launched_kinds.push(kind.to_string());
             if let Some(j) = sh.jobs().jobs.last() {
                 jobno.insert(k, j.id);
             }
@@ -177,26 +181,30 @@ async fn replay(ip: &Inproc, dir: &std::path::Path, events: &[String]) -> Value 
             let pending: Vec<u32> = must_finish.iter().copied().filter(|k| !released.contains(k)).collect();
             let mut fut = Box::pin(sh.run_string(cmd, &src, &params));
             let mut done = false;
-            if !pending.is_empty() {
+            // the awaited jobs that are still running are released ONE AT A TIME; before each release `wait`
+            // must still be blocked (a job that ends early, or ends in an error, must not end the wait)
+            let mut remaining = pending.clone();
+            while !remaining.is_empty() {
                 if tokio::time::timeout(std::time::Duration::from_millis(25), &mut fut).await.is_ok() {
                     done = true;
-                    violations.push(json!({"oracle": "wait-returns-after-jobs", "detail": format!("`{}` returned while jobs {:?} had not finished", e, pending)}));
+                    violations.push(json!({"oracle": "wait-returns-after-jobs", "detail": format!("`{}` returned while jobs {:?} had not finished", e, remaining)}));
+                    break;
                 }
+                let k = remaining.remove(0);
+                gate(k).notify_one();
+                released.insert(k);
+                if !wait_for_mark(&format!("m{k}"), 3000).await {
+                    violations.push(json!({"oracle": "job-finishes", "detail": format!("job {k} never emitted its marker after its gate was released")}));
+                }
+                settle().await;
             }
-            if !done {
-                for k in &pending {
-                    gate(*k).notify_one();
-                    released.insert(*k);
-                }
-                if tokio::time::timeout(std::time::Duration::from_millis(4000), &mut fut).await.is_err() {
-                    violations.push(json!({"oracle": "wait-terminates", "detail": format!("`{}` did not return within 4 s after all jobs were released", e)}));
-                    infeasible = true;
-                }
-            } else {
-                for k in &pending {
-                    gate(*k).notify_one();
-                    released.insert(*k);
-                }
+            for k in &remaining {
+                gate(*k).notify_one();
+                released.insert(*k);
+            }
+            if !done && tokio::time::timeout(std::time::Duration::from_millis(4000), &mut fut).await.is_err() {
+                violations.push(json!({"oracle": "wait-terminates", "detail": format!("`{}` did not return within 4 s after all jobs were released", e)}));
+                infeasible = true;
             }
             drop(fut);
             // happens-before: every awaited job's marker precedes the marker printed right after wait
@@ -247,7 +255,7 @@ async fn replay(ip: &Inproc, dir: &std::path::Path, events: &[String]) -> Value 
     let t = table(&sh);
     let m = marks();
     let mset: BTreeSet<&String> = m.iter().filter(|x| x.starts_with('m') || x.starts_with('c')).collect();
-    let canon = json!({"table": t, "released": released, "launched": launched.len(), "marks": mset, "fg": fg, "waits": waits.min(1)}).to_string();
+    let canon = json!({"table": t, "released": released, "launched": launched.len(), "kinds": launched_kinds, "marks": mset, "fg": fg, "waits": waits.min(1)}).to_string();
     json!({"canon": canon, "violations": violations, "table": t, "marks": m, "infeasible": infeasible, "launched": launched.len(), "released": released, "jobs_listing": jobs_listing})
 }
 
@@ -311,8 +319,8 @@ pub fn run(tier: Tier, replay_file: Option<Value>) -> ! {
     let depth = tier.pick(6, 8);
     let max_jobs = tier.pick(3, 4);
     let kinds: Vec<&str> = match tier {
-        Tier::Quick => vec!["s", "c"],
-        Tier::Thorough => vec!["s", "c", "p", "f"],
+        Tier::Quick => vec!["c", "e"],
+        Tier::Thorough => vec!["s", "c", "p", "f", "e"],
     };
     let mut seen: BTreeSet<String> = BTreeSet::new();
     let mut frontier: Vec<(Vec<String>, Value)> = vec![(vec![], json!({"launched": 0, "released": [], "marks": []}))];
